@@ -476,3 +476,25 @@ Proof.
   intros cm src. split; [reflexivity|]. intros v c. unfold fuel_of. simpl.
   pose proof (lex_count cm src). lia.
 Qed.
+
+Theorem loops_advance :
+  forall cf src, c_charpos cf = false -> utf8_valid src ->
+  forall f st, st_ok src st -> (len st < f)%nat ->
+    (forall acc, R src st 0 T (point_list_loop cf src f acc st)) /\
+    (forall acc, R src st 0 T (symm_loop cf src f acc st)) /\
+    (forall data, R src st 0 T (ext_loop cf src f data st)) /\
+    (forall acc, R src st 0 T (property_loop cf src f acc st)) /\
+    (forall p props, R src st 0 T (pin_loop cf src f p props st)) /\
+    (forall m props, R src st 0 T (macro_loop cf src f m props st)) /\
+    (forall lib, R src st 0 T (lib_loop cf src f lib st)).
+Proof.
+  intros cf src Hcf V f st Hok Hf. pose proof (valid_starts_on_boundary _ V) as Hs.
+  repeat split; intros.
+  - exact (point_list_loop_spec cf src Hcf Hs f acc st Hok Hf).
+  - exact (symm_loop_spec cf src Hcf Hs f acc st Hok Hf).
+  - exact (ext_loop_spec cf src Hcf Hs f data st Hok Hf).
+  - exact (property_loop_spec cf src Hcf Hs f acc st Hok Hf).
+  - exact (pin_loop_spec cf src Hcf Hs f p props st Hok Hf).
+  - exact (macro_loop_spec cf src Hcf Hs f m props st Hok Hf).
+  - exact (lib_loop_spec cf src Hcf Hs f lib st Hok Hf).
+Qed.
